@@ -2,6 +2,7 @@ package topo
 
 import (
 	"context"
+	"errors"
 	"fmt"
 	"sort"
 	"strconv"
@@ -17,6 +18,7 @@ import (
 	"go.opentelemetry.io/collector/connector"
 	"go.opentelemetry.io/collector/connector/xconnector"
 	"go.opentelemetry.io/collector/consumer"
+	"go.opentelemetry.io/collector/consumer/consumererror"
 	"go.opentelemetry.io/collector/consumer/xconsumer"
 	"go.opentelemetry.io/collector/exporter"
 	"go.opentelemetry.io/collector/exporter/xexporter"
@@ -103,7 +105,28 @@ type FaultErr struct {
 	Op     string // start | shutdown | ready | notready | notifyconfig
 	Key    string
 	Serial int
-	At     int // index of the event (the call) that raised it
+	At     int    // index of the event (the call) that raised it
+	Kind   string // how the error handed to the collector wraps this one (ErrKinds)
+}
+
+// ErrKinds are the shapes of injected errors: the FaultErr itself; wrapped
+// together with context.DeadlineExceeded / context.Canceled (a component whose
+// own drain timed out); joined with a second error; wrapped as a permanent
+// (consumererror) error.
+var ErrKinds = []string{"plain", "deadline", "canceled", "joined", "permanent"}
+
+func wrapKind(e *FaultErr) error {
+	switch e.Kind {
+	case "deadline":
+		return fmt.Errorf("%w: gave up draining: %w", e, context.DeadlineExceeded)
+	case "canceled":
+		return fmt.Errorf("%w: interrupted: %w", e, context.Canceled)
+	case "joined":
+		return errors.Join(e, errors.New("and a second problem"))
+	case "permanent":
+		return consumererror.NewPermanent(e)
+	}
+	return e
 }
 
 func (e *FaultErr) Error() string { return e.Token() + " (" + e.Key + ")" }
@@ -121,6 +144,14 @@ type World struct {
 	// FailCall: extension capability callbacks that fail: "ready:<ext key>",
 	// "notready:<ext key>", "notifyconfig:<ext key>".
 	FailCall map[string]bool
+	// ErrKind: "<op>:<fault key>" → kind of the error returned (default plain).
+	ErrKind map[string]string
+	// FailExport: exporter node key → "plain" | "ctx": the exporter records the arrival and then returns
+	// an error (ctx: the context's error when it has one).
+	FailExport map[string]string
+	// ShareSlices: pipelines with equal receiver / processor / exporter lists are given the very same
+	// []component.ID slice in the service configuration.
+	ShareSlices bool
 	// OnStart, when set, is called at the beginning of every component Start.
 	OnStart func(key string, serial int)
 
@@ -138,7 +169,7 @@ type World struct {
 
 // NewWorld prepares factories for t.
 func NewWorld(t Topology) *World {
-	return &World{T: t, FailStart: map[string]bool{}, FailStop: map[string]bool{}, FailCall: map[string]bool{}, creates: map[string]int{}, next: map[string][]any{},
+	return &World{T: t, FailStart: map[string]bool{}, FailStop: map[string]bool{}, FailCall: map[string]bool{}, ErrKind: map[string]string{}, FailExport: map[string]string{}, creates: map[string]int{}, next: map[string][]any{},
 		sharedR: sharedcomponent.NewMap[component.ID, *comp](), sharedE: sharedcomponent.NewMap[component.ID, *comp]()}
 }
 
@@ -220,12 +251,12 @@ func (w *World) newComp(key, faultKey string) *comp {
 }
 
 func (c *comp) fault(op string) error {
-	e := &FaultErr{Op: op, Key: c.key, Serial: c.serial}
+	e := &FaultErr{Op: op, Key: c.key, Serial: c.serial, Kind: c.w.ErrKind[op+":"+c.faultKey]}
 	c.w.mu.Lock()
 	e.At = len(c.w.events) - 1
 	c.w.raised = append(c.w.raised, e)
 	c.w.mu.Unlock()
-	return e
+	return wrapKind(e)
 }
 
 func (c *comp) Start(context.Context, component.Host) error {
@@ -520,6 +551,11 @@ func (w *World) Inject(recvKey, tag string) error {
 
 // InjectPayload emits v from the receiver node (signal, id).
 func (w *World) InjectPayload(recvKey string, v any) error {
+	return w.InjectPayloadCtx(context.Background(), recvKey, v)
+}
+
+// InjectPayloadCtx emits v with the given request context.
+func (w *World) InjectPayloadCtx(ctx context.Context, recvKey string, v any) error {
 	w.mu.Lock()
 	nexts := append([]any(nil), w.next[recvKey]...)
 	w.mu.Unlock()
@@ -527,7 +563,7 @@ func (w *World) InjectPayload(recvKey string, v any) error {
 		return fmt.Errorf("receiver %s was never created", recvKey)
 	}
 	for _, n := range nexts {
-		if err := consumeAny(context.Background(), n, v); err != nil {
+		if err := consumeAny(ctx, n, v); err != nil {
 			return err
 		}
 	}
@@ -577,6 +613,15 @@ func (w *World) recorder(key string) consumers {
 		w.mu.Lock()
 		w.records = append(w.records, Record{Exporter: key, Tag: tag, Trail: trail, Hops: hops, data: v})
 		w.mu.Unlock()
+		switch w.FailExport[key] {
+		case "ctx":
+			if err := ctx.Err(); err != nil {
+				return err
+			}
+			return errors.New("vt: export failed at " + key)
+		case "plain":
+			return errors.New("vt: export failed at " + key)
+		}
 		return nil
 	})
 }
@@ -1134,9 +1179,21 @@ func (w *World) Config() service.Config {
 	for _, x := range w.T.ServiceExtensions() {
 		cfg.Extensions = append(cfg.Extensions, MustID(x))
 	}
+	shared := map[string][]component.ID{}
+	list := func(ss []string) []component.ID {
+		if !w.ShareSlices {
+			return ids(ss)
+		}
+		k := strings.Join(ss, ",")
+		if s, ok := shared[k]; ok {
+			return s
+		}
+		shared[k] = ids(ss)
+		return shared[k]
+	}
 	for _, p := range w.T.Pipelines {
 		cfg.Pipelines[PipelineID(p)] = &pipelines.PipelineConfig{
-			Receivers: ids(p.Receivers), Processors: ids(p.Processors), Exporters: ids(p.Exporters),
+			Receivers: list(p.Receivers), Processors: list(p.Processors), Exporters: list(p.Exporters),
 		}
 	}
 	return cfg
